@@ -569,14 +569,19 @@ theorem cmp_int_float_src_ok : Gen.Script.cmpIntFloatSrc =
     "func cmpIntFloat(i int64, f float64) int {\n\tswitch {\n\tcase f != f:\n\t\treturn 2\n\tcase 9223372036854775808.0 <= f:\n\t\treturn -1\n\tcase f < -9223372036854775808.0:\n\t\treturn 1\n\t}\n\tt := math.Trunc(f)\n\tswitch ti := int64(t); {\n\tcase i < ti:\n\t\treturn -1\n\tcase ti < i:\n\t\treturn 1\n\tcase t < f:\n\t\treturn -1\n\tcase f < t:\n\t\treturn 1\n\t}\n\treturn 0\n}" := by
   decide +kernel
 
-/-- round 3: the current code differs from the fully repaired one by exactly one flag (finding
-C12-iface-field-panic); before round 3 this read `Dev.current = Dev.fixed` -/
-theorem current_vs_fixed : Dev.current = { Dev.fixed with ifaceTrap := true } := rfl
+/-- since 6d0c31a again: no deviation left (between round 3's finding and that commit this read
+`Dev.current = { Dev.fixed with ifaceTrap := true }`) -/
+theorem current_vs_fixed : Dev.current = Dev.fixed := rfl
+theorem current_eq_fixed : Dev.current = Dev.fixed := rfl
 
-/-- in the current code a left operand reaches Go `==` unguarded exactly when its TYPE is reported
-comparable (`passesGuard`); it then faults iff `==` is unsafe on it -/
-theorem current_fault_flag (l : Val) : Dev.current.faultFlag l = passesGuard l := by
-  simp [Dev.faultFlag, Dev.current]
+/-- before 6d0c31a a left operand reached Go `==` unguarded exactly when its TYPE is reported comparable
+(`passesGuard`); it then faulted iff `==` is unsafe on it -/
+theorem before_6d0c31a_fault_flag (l : Val) : Dev.before6d0c31a.faultFlag l = passesGuard l := by
+  simp [Dev.faultFlag, Dev.before6d0c31a]
+
+/-- regression tripwire over 6d0c31a: `sameHolder` with its deferred recover exists, sameValue and sameHolder
+hold one raw `left == right` each -/
+theorem iface_field_fix_ok : Gen.Script.svHolderRecover = true ∧ Gen.Script.svRawEq = 2 := by decide
 
 /-! ### No stack underflow on compiled templates
 
@@ -676,33 +681,46 @@ example : noUnderflow Dev.current rx0 [.op .eq, .val (.int 1)] = false := by dec
 /-- evaluation of any non-empty program on any element never faults — for ANY cell sequence, well-formed
 or not: a missing operand reads as nil, as in the Go loop; `no_underflow` shows that this default is
 never taken on the templates `compile` produces -/
-theorem total_after_fix (rx : RxEngine) (prog : List Item) (hne : prog ≠ []) (elem root : Val) :
-    ∃ b, matchElem Dev.fixed rx prog elem root = .ok b :=
-  total_fixed Dev.fixed rfl rfl rx prog hne elem root
+theorem total_current (rx : RxEngine) (prog : List Item) (hne : prog ≠ []) (elem root : Val) :
+    ∃ b, matchElem Dev.current rx prog elem root = .ok b :=
+  total_fixed Dev.current rfl rfl rx prog hne elem root
+
+/-- `==` and `!=` are complements for all operand kinds on both sides -/
+theorem eq_neq_complement_current (rx : RxEngine) (l r : Val) :
+    ∃ b, evalOp Dev.current rx .eq l r = .ok (.bool b) ∧ evalOp Dev.current rx .neq l r = .ok (.bool (!b)) :=
+  eq_neq_complement Dev.current rfl rfl rfl rx l r
+
+/-- EVERY operator application — all 23 operators, all operand kinds on both sides (typed Go values included) —
+computes the specified value -/
+theorem evalOp_current (rx : RxEngine) (o : Op) (l r : Val) :
+    evalOp Dev.current rx o l r = .ok (Spec.evalOp rx o l r) :=
+  evalOp_fixed_eq_spec rx o l r
+
+/-! #### before 6d0c31a (finding C12-iface-field-panic, round 3): witnesses and the partial forms -/
 
 /-- a value of a comparable struct type that holds a slice in an interface-typed field
 (`struct{X any}{[]int{1}}`): the type is comparable, `==` on two such values is not safe -/
 def trapVal : Val := .ext ⟨90, false, 0, .none, true⟩
 
-def total_current_full : Prop :=
-  ∀ (rx : RxEngine) (prog : List Item), prog ≠ [] → ∀ elem root, ∃ b, matchElem Dev.current rx prog elem root = .ok b
+def total_before_6d0c31a : Prop :=
+  ∀ (rx : RxEngine) (prog : List Item), prog ≠ [] → ∀ elem root, ∃ b, matchElem Dev.before6d0c31a rx prog elem root = .ok b
 
-/-- round 3, finding C12-iface-field-panic: `struct{X any}{[]int{1}} == struct{X any}{[]int{1}}` panics in the
-current code -/
-theorem total_current_full_false : ¬ total_current_full := by
+/-- round 3, finding C12-iface-field-panic: before 6d0c31a `struct{X any}{[]int{1}} == struct{X any}{[]int{1}}`
+panicked -/
+theorem total_before_6d0c31a_false : ¬ total_before_6d0c31a := by
   intro h
   obtain ⟨b, hb⟩ := h rx0 [.op .eq, .val trapVal, .val trapVal] (by simp) .null .null
-  have : matchElem Dev.current rx0 [.op .eq, .val trapVal, .val trapVal] .null .null = .error .uncomparable := rfl
+  have : matchElem Dev.before6d0c31a rx0 [.op .eq, .val trapVal, .val trapVal] .null .null = .error .uncomparable := rfl
   rw [this] at hb
   cases hb
 
-/-- the current code: evaluation of ANY non-empty program (well-formed or not) on any element never faults
+/-- the code before 6d0c31a: evaluation of ANY non-empty program (well-formed or not) on any element never faults
 unless, for some choice of the multi-valued operands, an operator application `==`, `!=`, `in` has on its left
 a value whose type is comparable but whose `==` is unsafe, and on its right (or in the list) a value of the same
-kind (`hitsUncomparable Dev.current`); without such typed data in play nothing is excluded -/
-theorem total_current_partial (rx : RxEngine) (prog : List Item) (hne : prog ≠ []) (elem root : Val)
-    (h : ∀ x ∈ prod (resolve elem root false prog), hitsUncomparable Dev.current rx x = false) :
-    ∃ b, matchElem Dev.current rx prog elem root = .ok b := by
+kind (`hitsUncomparable Dev.before6d0c31a`); without such typed data in play nothing is excluded -/
+theorem total_before_6d0c31a_partial (rx : RxEngine) (prog : List Item) (hne : prog ≠ []) (elem root : Val)
+    (h : ∀ x ∈ prod (resolve elem root false prog), hitsUncomparable Dev.before6d0c31a rx x = false) :
+    ∃ b, matchElem Dev.before6d0c31a rx prog elem root = .ok b := by
   unfold matchElem
   split
   · split <;> exact ⟨_, rfl⟩
@@ -712,66 +730,66 @@ theorem total_current_partial (rx : RxEngine) (prog : List Item) (hne : prog ≠
     have := resolve_length elem root prog false
     rw [h0] at this
     exact hne (List.eq_nil_of_length_eq_zero this.symm)
-  refine ⟨_, matchResolved_any_of_ok Dev.current rx _ hr (fun x hx => ?_)⟩
-  cases hs : evalStack Dev.current rx x with
+  refine ⟨_, matchResolved_any_of_ok Dev.before6d0c31a rx _ hr (fun x hx => ?_)⟩
+  cases hs : evalStack Dev.before6d0c31a rx x with
   | ok vs => exact ⟨vs, rfl⟩
   | error f =>
-    have := (evalStack_fault_iff Dev.current rx x).1 ⟨f, hs⟩
+    have := (evalStack_fault_iff Dev.before6d0c31a rx x).1 ⟨f, hs⟩
     rw [h x hx] at this; cases this
 
 /-- non-trivial instance: `@.a == @.b` on an element holding two `[]int` (typed containers, which the reflect
 guard catches) stays outside the excluded class -/
 example : ∀ x ∈ prod (resolve (.obj [([97], .ext ⟨40, false, 0, .none, false⟩), ([98], .ext ⟨40, false, 1, .none, false⟩)]) .null false
       [.op .eq, .path ⟨false, [.child [97]]⟩, .path ⟨false, [.child [98]]⟩]),
-    hitsUncomparable Dev.current rx0 x = false := by decide +kernel
+    hitsUncomparable Dev.before6d0c31a rx0 x = false := by decide +kernel
 
-def eq_neq_complement_current_full : Prop :=
-  ∀ (rx : RxEngine) (l r : Val), ∃ b, evalOp Dev.current rx .eq l r = .ok (.bool b) ∧ evalOp Dev.current rx .neq l r = .ok (.bool (!b))
+def eq_neq_complement_before_6d0c31a : Prop :=
+  ∀ (rx : RxEngine) (l r : Val), ∃ b, evalOp Dev.before6d0c31a rx .eq l r = .ok (.bool b) ∧ evalOp Dev.before6d0c31a rx .neq l r = .ok (.bool (!b))
 
-theorem eq_neq_complement_current_full_false : ¬ eq_neq_complement_current_full := by
+theorem eq_neq_complement_before_6d0c31a_false : ¬ eq_neq_complement_before_6d0c31a := by
   intro h
   obtain ⟨b, hb, _⟩ := h rx0 trapVal trapVal
-  have : evalOp Dev.current rx0 .eq trapVal trapVal = .error .uncomparable := rfl
+  have : evalOp Dev.before6d0c31a rx0 .eq trapVal trapVal = .error .uncomparable := rfl
   rw [this] at hb
   cases hb
 
 /-- `==` and `!=` are complements for all operand kinds on both sides, except a left operand whose type is
 comparable while `==` on it is unsafe, against a right operand of the same kind -/
-theorem eq_neq_complement_current_partial (rx : RxEngine) (l r : Val)
+theorem eq_neq_complement_before_6d0c31a_partial (rx : RxEngine) (l r : Val)
     (h : (passesGuard l && sameContainer l r) = false) :
-    ∃ b, evalOp Dev.current rx .eq l r = .ok (.bool b) ∧ evalOp Dev.current rx .neq l r = .ok (.bool (!b)) := by
-  have he : ifaceEq Dev.current l r = ifaceEq Dev.fixed l r := by
+    ∃ b, evalOp Dev.before6d0c31a rx .eq l r = .ok (.bool b) ∧ evalOp Dev.before6d0c31a rx .neq l r = .ok (.bool (!b)) := by
+  have he : ifaceEq Dev.before6d0c31a l r = ifaceEq Dev.fixed l r := by
     apply ifaceEq_eq_fixed
     intro hf
-    rw [current_fault_flag] at hf
+    rw [before_6d0c31a_fault_flag] at hf
     simpa [hf] using h
   obtain ⟨e, he'⟩ := ifaceEq_ok Dev.fixed rfl rfl l r
   simp only [evalOp, he, he']
   cases e
-  · cases l <;> cases r <;> simp [Dev.current]
+  · cases l <;> cases r <;> simp [Dev.before6d0c31a]
   · exact ⟨true, by simp⟩
 
 example : (passesGuard (.ext ⟨40, false, 0, .none, false⟩) && sameContainer (.ext ⟨40, false, 0, .none, false⟩) (.ext ⟨40, false, 0, .none, false⟩)) = false := rfl
 
-def evalOp_current_full : Prop :=
-  ∀ (rx : RxEngine) (o : Op) (l r : Val), evalOp Dev.current rx o l r = .ok (Spec.evalOp rx o l r)
+def evalOp_before_6d0c31a : Prop :=
+  ∀ (rx : RxEngine) (o : Op) (l r : Val), evalOp Dev.before6d0c31a rx o l r = .ok (Spec.evalOp rx o l r)
 
-theorem evalOp_current_full_false : ¬ evalOp_current_full := by
+theorem evalOp_before_6d0c31a_false : ¬ evalOp_before_6d0c31a := by
   intro h
   have := h rx0 .eq trapVal trapVal
-  have e : evalOp Dev.current rx0 .eq trapVal trapVal = .error .uncomparable := rfl
+  have e : evalOp Dev.before6d0c31a rx0 .eq trapVal trapVal = .error .uncomparable := rfl
   rw [e] at this
   cases this
 
 /-- EVERY operator application — all 23 operators, all operand kinds on both sides — computes the
 specified value, except `==`, `!=`, `in` with a left operand whose type is comparable while `==` on it is
 unsafe, against a value of the same kind -/
-theorem evalOp_current_partial (rx : RxEngine) (o : Op) (l r : Val)
+theorem evalOp_before_6d0c31a_partial (rx : RxEngine) (o : Op) (l r : Val)
     (h : (passesGuard l && uncomparablePair o l r) = false) :
-    evalOp Dev.current rx o l r = .ok (Spec.evalOp rx o l r) := by
+    evalOp Dev.before6d0c31a rx o l r = .ok (Spec.evalOp rx o l r) := by
   apply evalOp_eq_spec_of
   · intro hf
-    rw [current_fault_flag] at hf
+    rw [before_6d0c31a_fault_flag] at hf
     simpa [hf] using h
   · intro hq; cases hq
   · intro hv; cases hv
@@ -802,32 +820,38 @@ theorem num_matrix_before_24fcf54_false : ¬ num_matrix_before_24fcf54 := by
   rw [c] at this
   cases this
 
+/-- Script.Match (every Script() route) gives the specified verdict on EVERY well-formed script, every
+element and root -/
+theorem script_spec_current (rx : RxEngine) (t : Tm) (hwf : t.wf = true) (elem root : Val) :
+    matchElem Dev.current rx (compile true t) elem root = .ok (Spec.matches rx t elem root) :=
+  script_spec rx t hwf elem root
+
 /-- no operator application of the script, for any choice of its multi-valued operands, is `==`/`!=`/`in`
 with a left operand whose type is comparable while `==` on it is unsafe against a value of the same kind — the
 one class in which the current code leaves the specification (true of every script on data without such
 struct/array values) -/
 def TrapFree (rx : RxEngine) (t : Tm) (elem root : Val) : Prop :=
-  ∀ c ∈ Spec.choices elem root (Spec.normalise t), Clean Dev.current rx c = true
+  ∀ c ∈ Spec.choices elem root (Spec.normalise t), Clean Dev.before6d0c31a rx c = true
 
-def script_spec_current_full : Prop :=
+def script_spec_before_6d0c31a : Prop :=
   ∀ (rx : RxEngine) (t : Tm), t.wf = true → ∀ elem root,
-    matchElem Dev.current rx (compile true t) elem root = .ok (Spec.matches rx t elem root)
+    matchElem Dev.before6d0c31a rx (compile true t) elem root = .ok (Spec.matches rx t elem root)
 
-theorem script_spec_current_full_false : ¬ script_spec_current_full := by
+theorem script_spec_before_6d0c31a_false : ¬ script_spec_before_6d0c31a := by
   intro h
   have := h rx0 (.app2 .eq (.const trapVal) (.const trapVal)) rfl .null .null
-  have e : matchElem Dev.current rx0 (compile true (.app2 .eq (.const trapVal) (.const trapVal))) .null .null
+  have e : matchElem Dev.before6d0c31a rx0 (compile true (.app2 .eq (.const trapVal) (.const trapVal))) .null .null
       = .error .uncomparable := rfl
   rw [e] at this
   cases this
 
 /-- Script.Match (every Script() route) gives the specified verdict on every well-formed script, every
 element and root, outside the class of finding C12-iface-field-panic (`TrapFree`) -/
-theorem script_spec_current_partial (rx : RxEngine) (t : Tm) (hwf : t.wf = true) (elem root : Val)
+theorem script_spec_before_6d0c31a_partial (rx : RxEngine) (t : Tm) (hwf : t.wf = true) (elem root : Val)
     (hclean : TrapFree rx t elem root) :
-    matchElem Dev.current rx (compile true t) elem root = .ok (Spec.matches rx t elem root) := by
+    matchElem Dev.before6d0c31a rx (compile true t) elem root = .ok (Spec.matches rx t elem root) := by
   rw [compile_true, matchElem_general _ _ _ _ _ (flatten_not_bare _ (isPath_normalise t)),
-    matchElem_flatten_clean Dev.current rx _ (wf_normalise t hwf) elem root hclean]
+    matchElem_flatten_clean Dev.before6d0c31a rx _ (wf_normalise t hwf) elem root hclean]
   rfl
 
 /-- non-trivial instance: `@.a == @.m[*]` where `a` is a typed container and `m` holds typed containers and
@@ -854,12 +878,12 @@ theorem script_spec_before_24fcf54_false : ¬ script_spec_before_24fcf54 := by
 /-- the filter route (`Equation.Filter()` inside `Expr.Get`/`First`) gives the specified verdict on EVERY
 well-formed script; the only hypothesis concerns a bare path: the data it selects must not hold the
 `jp.Nothing` marker itself (`bare_path_spec`) -/
-theorem filter_spec_current_partial (rx : RxEngine) (t : Tm) (hwf : t.wf = true) (elem root : Val)
-    (hdata : ∀ p, t = .path p → NoNothing (Spec.sel p elem root)) (hclean : TrapFree rx t elem root) :
+theorem filter_spec_current (rx : RxEngine) (t : Tm) (hwf : t.wf = true) (elem root : Val)
+    (hdata : ∀ p, t = .path p → NoNothing (Spec.sel p elem root)) :
     matchElem Dev.current rx (compile false t) elem root = .ok (Spec.matches rx t elem root) := by
   cases hb : isPath t
   · rw [match_filter t hb]
-    exact script_spec_current_partial rx t hwf elem root hclean
+    exact script_spec_current rx t hwf elem root
   · cases t with
     | path p => exact bare_path_spec Dev.current rx p elem root (hdata p rfl)
     | const v => simp [isPath] at hb
@@ -882,9 +906,9 @@ theorem clean_bare (d : Dev) (rx : RxEngine) (p : Path) (elem root : Val) :
 out and the program `Filter()` lays out give the same verdict. This is NOT yet the property's clause — it does
 not speak about `Get`'s result; `match_iff_in_filter` below does. -/
 theorem match_filter_current_weak (rx : RxEngine) (t : Tm) (hwf : t.wf = true) (elem : Val)
-    (hdata : ∀ p, t = .path p → NoNothing (Spec.sel p elem elem)) (hclean : TrapFree rx t elem elem) :
+    (hdata : ∀ p, t = .path p → NoNothing (Spec.sel p elem elem)) :
     matchElem Dev.current rx (compile true t) elem elem = matchElem Dev.current rx (compile false t) elem elem := by
-  rw [script_spec_current_partial rx t hwf elem elem hclean, filter_spec_current_partial rx t hwf elem elem hdata hclean]
+  rw [script_spec_current rx t hwf elem elem, filter_spec_current rx t hwf elem elem hdata]
 
 /-! ### Script.Match(v) ⇔ v is in the result of the corresponding filter
 
@@ -924,14 +948,13 @@ theorem matches_root_irrel (rx : RxEngine) (t : Tm) (h : rootFree t = true) (e r
 
 /-- the model of the filter fragment selects, in order, exactly the elements the specification matches -/
 theorem filterList_spec (rx : RxEngine) (t : Tm) (hwf : t.wf = true) (root : Val) (xs : List Val)
-    (hdata : ∀ v ∈ xs, ∀ p, t = .path p → NoNothing (Spec.sel p v root))
-    (hclean : ∀ v ∈ xs, TrapFree rx t v root) :
+    (hdata : ∀ v ∈ xs, ∀ p, t = .path p → NoNothing (Spec.sel p v root)) :
     filterList Dev.current rx (compile false t) root xs = .ok (xs.filter fun v => Spec.matches rx t v root) := by
   induction xs with
   | nil => rfl
   | cons v r ih =>
-    have ih' := ih (fun w hw => hdata w (List.mem_cons_of_mem _ hw)) (fun w hw => hclean w (List.mem_cons_of_mem _ hw))
-    simp only [filterList, ih', filter_spec_current_partial rx t hwf v root (hdata v (by simp)) (hclean v (by simp)), List.filter_cons]
+    have ih' := ih (fun w hw => hdata w (List.mem_cons_of_mem _ hw))
+    simp only [filterList, ih', filter_spec_current rx t hwf v root (hdata v (by simp)), List.filter_cons]
 
 def isOkTrue : Except Fault Bool → Bool
   | .ok true => true
@@ -948,8 +971,7 @@ elements `v` of `xs` on which `Script.Match(v)` (`$` = `v`) is true; in particul
 is in `xs` and `Match(v)`. Only hypothesis besides well-formedness: for a bare-path script the selected data
 does not hold the `jp.Nothing` marker. -/
 theorem match_iff_in_filter (rx : RxEngine) (t : Tm) (hwf : t.wf = true) (hrf : rootFree t = true) (xs : List Val)
-    (hdata : ∀ v ∈ xs, ∀ p, t = .path p → NoNothing (Spec.sel p v v))
-    (hclean : ∀ v ∈ xs, TrapFree rx t v v) :
+    (hdata : ∀ v ∈ xs, ∀ p, t = .path p → NoNothing (Spec.sel p v v)) :
     filterGet Dev.current rx (compile false t) (.arr xs) =
         .ok (xs.filter fun v => isOkTrue (matchElem Dev.current rx (compile true t) v v)) ∧
     ∀ res, filterGet Dev.current rx (compile false t) (.arr xs) = .ok res →
@@ -959,21 +981,14 @@ theorem match_iff_in_filter (rx : RxEngine) (t : Tm) (hwf : t.wf = true) (hrf : 
     have hpr : p.root = false := by subst hp; simpa [rootFree] using hrf
     rw [sel_root_irrel p hpr v (.arr xs) v]
     exact hdata v hv p hp
-  have hn : rootFree (Spec.normalise t) = true := by
-    cases t <;> simp_all [Spec.normalise, rootFree]
-  have hc : ∀ v ∈ xs, TrapFree rx t v (.arr xs) := by
-    intro v hv
-    unfold TrapFree
-    rw [choices_root_irrel v (.arr xs) v _ hn]
-    exact hclean v hv
   have h1 : filterGet Dev.current rx (compile false t) (.arr xs) =
       .ok (xs.filter fun v => isOkTrue (matchElem Dev.current rx (compile true t) v v)) := by
     unfold filterGet
-    rw [filterList_spec rx t hwf (.arr xs) xs hd hc]
+    rw [filterList_spec rx t hwf (.arr xs) xs hd]
     congr 1
     apply List.filter_congr
-    intro v hv
-    rw [script_spec_current_partial rx t hwf v v (hclean v hv), matches_root_irrel rx t hrf v (.arr xs) v]
+    intro v _
+    rw [script_spec_current rx t hwf v v, matches_root_irrel rx t hrf v (.arr xs) v]
     cases Spec.matches rx t v v <;> rfl
   refine ⟨h1, ?_⟩
   intro res hres v
@@ -983,14 +998,12 @@ theorem match_iff_in_filter (rx : RxEngine) (t : Tm) (hwf : t.wf = true) (hrf : 
 
 /-- the property's wording on a one-element list: `Match(v)` ⇔ `v ∈ $[?script]([v])` -/
 theorem match_iff_in_filter_singleton (rx : RxEngine) (t : Tm) (hwf : t.wf = true) (hrf : rootFree t = true) (v : Val)
-    (hdata : ∀ p, t = .path p → NoNothing (Spec.sel p v v)) (hclean : TrapFree rx t v v) :
+    (hdata : ∀ p, t = .path p → NoNothing (Spec.sel p v v)) :
     matchElem Dev.current rx (compile true t) v v = .ok true ↔
       ∃ res, filterGet Dev.current rx (compile false t) (.arr [v]) = .ok res ∧ v ∈ res := by
   obtain ⟨h1, h2⟩ := match_iff_in_filter rx t hwf hrf [v] (fun w hw p hp => by
     have : w = v := by simpa using hw
-    subst this; exact hdata p hp) (fun w hw => by
-    have : w = v := by simpa using hw
-    subst this; exact hclean)
+    subst this; exact hdata p hp)
   constructor
   · intro hm
     exact ⟨_, h1, (h2 _ h1 v).2 ⟨by simp, hm⟩⟩
